@@ -16,7 +16,30 @@ ACI = "berty.tech/go-orbit-db/accesscontroller/ipfs"
 ACS = "berty.tech/go-orbit-db/accesscontroller/simple"
 ACO = "berty.tech/go-orbit-db/accesscontroller/orbitdb"
 
+ODB = "berty.tech/go-orbit-db/baseorbitdb"
+
 CHECKS = {
+    "C14": {
+        "groups": [{
+            "pkg": ODB, "funcs": ["VerifC14Determinism", "VerifC14Reopen", "VerifC14Escape"],
+            "params": {"quick": {"L": 2, "PFX": 3}, "thorough": {"L": 4, "PFX": 3}},
+            "max_paths": {"quick": 60000, "thorough": 600000},
+            "timeout": {"quick": "10m", "thorough": "60m"},
+            "covers": {"VerifC14Determinism": ["determined"], "VerifC14Reopen": ["created", "reopened"], "VerifC14Escape": ["accepted", "refused"]},
+        }, {
+            "pkg": ODB, "funcs": ["VerifC14Injective"],
+            "params": {"quick": {"L": 1}, "thorough": {"L": 2}},
+            "max_paths": {"quick": 60000, "thorough": 600000},
+            "timeout": {"quick": "10m", "thorough": "60m"},
+            "covers": {"VerifC14Injective": ["same-inputs", "different-inputs"]},
+        }],
+        "assumptions": [
+            "real orbitDB instances (newOrbitDB, DetermineAddress, Create, Open, createStore, haveLocalData, addManifestToCache), the real manifest code, acutils, the real ipfs access controller Save/Load, address.Parse/IsValid, the real path.Join/Clean and the real cache manager (cacheleveldown) over a disk model",
+            "name = symbolic string of length 0..L over ALL byte values; type in {eventlog, keyvalue, docstore}; explicit write list of 1..3 ids (symbolic) or none; two peers with different identities, peer ids and directories; plus names of the shape <3 symbolic bytes> + <root of another database> + '/v'",
+            "CIDs are perfect hashes of an idealised CBOR encoding whose field lists are recorded from the atlases registered by the real source; cid.Decode accepts exactly the stand-in tokens",
+        ],
+        "outside": ["real CID / multibase syntax", "orbitdb-type access controllers in the reopen check", "unicode normalisation (none is performed; bytes are opaque)", "names longer than L"],
+    },
     "C02": {
         "groups": [{
             "pkg": BS, "funcs": ["VerifC02Heal"],
